@@ -1,6 +1,7 @@
 package vuego
 
 import (
+	"sync"
 	"bytes"
 	"io/fs"
 	"strings"
@@ -98,6 +99,9 @@ func (lp *LessProcessor) isLessStyleTag(node *html.Node) bool {
 	return false
 }
 
+// lessMu serialises the calls into the LESS library (see compileLessTag).
+var lessMu sync.Mutex
+
 // compileLessTag extracts LESS content from the style tag, compiles it to CSS, and replaces the tag with a style tag.
 func (lp *LessProcessor) compileLessTag(styleNode *html.Node) error {
 	// Extract the LESS content from the style tag's text content
@@ -111,6 +115,11 @@ func (lp *LessProcessor) compileLessTag(styleNode *html.Node) error {
 	if lessContent == "" {
 		return nil // Empty style tag, nothing to compile
 	}
+
+	// The LESS library keeps the directory it resolves imports from in a package-level variable
+	// that every Render call assigns: one compilation at a time, whatever engine it belongs to
+	lessMu.Lock()
+	defer lessMu.Unlock()
 
 	// Parse and compile LESS to CSS
 	parser := dst.NewParser(bytes.NewReader([]byte(lessContent)))
